@@ -128,7 +128,7 @@ class Model:
         verdict = rec["verdict"]
         if verdict in ("reject", "either-reject") or (
                 verdict == "either" and hint.get("kind") == "error" and hint.get("class") == "InvalidMessageError"
-                and not hint.get("writes")):
+                and not hint.get("writes") and not hint.get("registry_changed")):
             exp.outcome, exp.error, exp.decoded = "error", ("InvalidMessageError",), False
             if verdict != "reject":
                 exp.open_points.append("lenient-line")
